@@ -357,6 +357,23 @@ func ExploreSharded(h *Harness, bound int, workers int, maxDur time.Duration) *R
 // WorkerMain turns the process into a shard worker when VRT_WORKER is set; it
 // never returns in that case.
 func WorkerMain(harnesses []*Harness) {
+	if n, _ := strconv.Atoi(os.Getenv("VRT_FREE")); n > 0 {
+		// race pass: run every scheduler-based harness body free-running n times
+		// (binary built with -race by run.sh); oracles are ignored here, only the
+		// race detector's log matters.
+		ran := 0
+		for _, h := range harnesses {
+			if h.Body == nil {
+				continue
+			}
+			for i := 0; i < n; i++ {
+				RunFree(func() { h.Body() })
+				ran++
+			}
+		}
+		fmt.Fprintf(os.Stderr, "vrt: free-running race pass: %d executions of %d harnesses\n", ran, len(harnesses))
+		os.Exit(0)
+	}
 	name := os.Getenv("VRT_WORKER")
 	if name == "" {
 		return
